@@ -19,6 +19,20 @@ for p in props:
     if getattr(mod, 'NOT_APPLICABLE', None):
         na.append({'property_id': pid, 'reason': mod.NOT_APPLICABLE})
         continue
+    try:
+        obs = mod.obligations('quick')
+        names = []
+        for o in obs:
+            fam = o.name.split('/')[0]
+            if fam not in names:
+                names.append(fam)
+        bounds = []
+        for o in obs:
+            if o.bounds and o.bounds not in bounds:
+                bounds.append(o.bounds)
+        btxt = ' Quick tier: %d obligations (%s). Bounds, e.g.: %s' % (len(obs), ', '.join(names)[:160], ' | '.join(bounds)[:700])
+    except Exception as e:
+        btxt = ''
     checks.append({
         'property_id': pid,
         'quick_cmd': 'bin/check %s --tier quick' % pid,
@@ -32,7 +46,7 @@ for p in props:
                 'Bounded symbolic model checking of the real code: the cardutil functions named in the evidence are executed '
                 'by CPython on symbolic values; every feasible path within the stated bounds is explored and each branch and '
                 'requirement is decided by z3. Holds = path search exhausted, no unknown; a counterexample is replayed on the '
-                'unmodified build before it is reported.'),
+                'unmodified build before it is reported.') + btxt,
             'design_ref': 'DESIGN.md section 4, %s' % pid,
         },
         'level_note': getattr(mod, 'LEVEL_NOTE', None) or (
